@@ -62,6 +62,7 @@ class Table:
         self.name = name
         self.rows = []
         self.unknown_conds = set()
+        self.list_guards = set()
 
     def eval(self, v):
         """union of destination sets of rows consistent with total valuation v; None if no row"""
@@ -121,6 +122,11 @@ def table_new(F):
                 conds[k] = 1 if val == 1 else 0
             if not in_second_loop or not p.end.startswith("backedge"):
                 continue
+            # conditions on the whole list under which the routing loop runs at all
+            for e, val in p.conds:
+                e2 = re.sub(r"@bb\d+", "", e)
+                if re.search(r"Vec::(is_empty|len)\(arg:network_filters\)", e2) or re.search(r"\(.*arg:network_filters.*\) (Eq|Ne|Gt|Lt|Ge|Le) ", e2):
+                    t.list_guards.add((e2, val))
             dests = set()
             for b, tm in path_calls(f, p, r"std::vec::Vec::push$"):
                 e = f.expr_operand(tm["args"][0])
